@@ -37,12 +37,12 @@ EXHAUSTIVE_SUBSPACES = {
 }
 TIERS = {"quick": dict(nshards=16, stride=1, hist_len=2), "thorough": dict(nshards=48, stride=1, hist_len=3)}
 
-KINDS = ["str", "bytes", "bytearray", "list", "liststr", "tuple", "gen", "genstr", "closable", "fw", "wrapfile", "empty"]
+KINDS = ["str", "bytes", "bytearray", "list", "liststr", "tuple", "gen", "genstr", "closable", "flaky", "fw", "wrapfile", "empty"]
 STAT = [100, 101, 199, 200, 201, 204, 205, 206, 301, 302, 304, 400, 404, 500, 599, HTTPStatus.OK, HTTPStatus.NO_CONTENT,
         "200 OK", "204 NO CONTENT", "304 whatever", "404 NOT FOUND", "299 custom reason"]
 METHODS = ["GET", "HEAD", "POST"]
 CLS = [None, "correct", "wrong"]
-LOCS = [None, "/rel?x=1", "http://é.example/pä th?q=ü", "//other/p", "test", "../x?q=ü"]
+LOCS = [None, "/rel?x=1", "http://é.example/pä th?q=ü", "//other/p", "test", "../x?q=ü", "/docs/handbuch#übersicht ä", "http://é.example/p?q=1#第一章"]
 
 
 def shards(tier, seed):
@@ -66,6 +66,20 @@ class CloseSpy:
 
     def close(self):
         self.closed += 1
+
+
+class FlakySpy(CloseSpy):
+    """A closable body whose first read fails (transient I/O error) and which works when read again."""
+
+    def __init__(self, chunks):
+        super().__init__(chunks)
+        self.failed = False
+
+    def __next__(self):
+        if not self.failed:
+            self.failed = True
+            raise RuntimeError("transient read error")
+        return super().__next__()
 
 
 class FSpy(io.BytesIO):
@@ -117,6 +131,10 @@ def mkbody(kind, W):
         s = CloseSpy([b"he", b"llo"])
         spies.append(("iter", lambda: s.closed, lambda: s.next_after_close))
         return s, b"hello", spies
+    if kind == "flaky":
+        s = FlakySpy([b"he", b"llo"])
+        spies.append(("iter", lambda: s.closed, lambda: s.next_after_close))
+        return s, b"hello", spies
     if kind == "fw":
         f = FSpy(b"hello")
         spies.append(("file", lambda: f.closed_n, lambda: 0))
@@ -153,10 +171,16 @@ def check_cell(rec, W, cell):
         c = [0]
         cbs.append(c)
         r.call_on_close(lambda c=c: c.__setitem__(0, c[0] + 1))
+    if inspect and kind == "flaky":
+        # the application looks at the body, the read fails, the application carries on and the response is served
+        try:
+            r.get_data() if ncb else r.make_sequence()
+        except RuntimeError:
+            rec.observe("buffering_failed_then_served")
     if inspect and kind not in ("fw", "wrapfile") and isinstance(status, str) and loc is None:
         # other ways an application looks at / replaces the body before it is sent
         how = ("freeze", "get_data", "set_data", "iter_encoded")[(ncb + len(str(status)) + METHODS.index(method)) % 4]
-        if how == "freeze" and kind == "closable":
+        if how == "freeze" and kind in ("closable", "flaky"):
             how = "get_data"  # freeze() drops the original iterable without closing it; freeze is outside the property's quantifier (observation only)
         if how == "freeze":
             r.freeze()
@@ -167,7 +191,7 @@ def check_cell(rec, W, cell):
         elif how == "set_data":
             r.set_data(r.get_data())
         else:
-            got_enc = b"".join(r.iter_encoded()) if kind not in ("gen", "genstr", "closable") else None
+            got_enc = b"".join(r.iter_encoded()) if kind not in ("gen", "genstr", "closable", "flaky") else None
             if got_enc is not None and got_enc != expected:
                 rec.violation("C05/iter_encoded-differs", f"{cell}: {got_enc!r}", case, monitor="body")
                 return
@@ -186,7 +210,15 @@ def check_cell(rec, W, cell):
             # what a conditional response does before it is served (stores the computed length as a header)
             r.make_conditional(env)
     it, st, hd = r.get_wsgi_response(env)
-    data = b"".join(it)
+    broken = False
+    try:
+        data = b"".join(it)
+    except RuntimeError:
+        if kind != "flaky":
+            raise
+        # the body failed while the server was sending it: the server still closes the iterable, once
+        broken, data = True, b""
+        rec.observe("body_failed_while_served")
     if hasattr(it, "close"):
         it.close()
     code = int(st[:3])
@@ -203,10 +235,10 @@ def check_cell(rec, W, cell):
             rec.violation("C05/H4-body-for-bodyless", f"{cell}: {data!r}", case, monitor="H4")
     if (100 <= code < 200 or code == 204) and "content-length" in hdd:
         rec.violation("C05/H4-content-length-on-1xx-204", f"{cell}: {hdd['content-length']}", case, monitor="H4")
-    if not bodyless and data != expected:
+    if not bodyless and not broken and data != expected:
         rec.violation("C05/body-bytes-differ", f"{cell}: {data!r} != {expected!r}", case, monitor="body")
     if "content-length" in hdd and cl is None:
-        if not bodyless and int(hdd["content-length"]) != len(data):
+        if not bodyless and not broken and int(hdd["content-length"]) != len(data):
             rec.violation("C05/H2-content-length-mismatch", f"{cell}: {hdd['content-length']} vs {len(data)} bytes", case, monitor="H2")
         if method == "HEAD" and not (100 <= code < 200 or code in (204, 304)) and int(hdd["content-length"]) != len(expected):
             rec.violation("C05/H2-head-content-length-mismatch", f"{cell}: {hdd['content-length']} vs GET body {len(expected)}", case, monitor="H2")
